@@ -88,6 +88,32 @@ def make_logarithmic_parameter_grid_1d(
     return ParameterGrid(name, grid, delta)
 
 
+def _scalar_float_cast(v, errmsg, allow_None=False):
+    """Casts the given scalar value to a float. In contrast to
+    :func:`skyllh.core.py.float_cast` a sequence of values is not accepted,
+    because the value, the initial value, and the bounds of a parameter are
+    single numbers.
+
+    Parameters
+    ----------
+    v : object
+        The scalar object that should get casted to a float.
+    errmsg : str
+        The error message of the TypeError that is raised if the cast fails.
+    allow_None : bool
+        Flag if ``None`` is accepted as value (and returned as it is).
+
+    Returns
+    -------
+    v : float | None
+        The value casted to float.
+    """
+    if issequence(v):
+        raise TypeError(errmsg)
+
+    return float_cast(v, errmsg, allow_None=allow_None)
+
+
 class Parameter(object):
     """This class describes a parameter of a mathematical function, like a PDF,
     or source flux function. A parameter has a name, a value range, and an
@@ -152,7 +178,7 @@ class Parameter(object):
 
     @initial.setter
     def initial(self, v):
-        v = float_cast(
+        v = _scalar_float_cast(
             v,
             'The "initial" property must be castable to type float!')
         self._initial = v
@@ -178,7 +204,7 @@ class Parameter(object):
 
     @valmin.setter
     def valmin(self, v):
-        v = float_cast(
+        v = _scalar_float_cast(
             v,
             'The "valmin" property must be castable to type float!',
             allow_None=True)
@@ -192,7 +218,7 @@ class Parameter(object):
 
     @valmax.setter
     def valmax(self, v):
-        v = float_cast(
+        v = _scalar_float_cast(
             v,
             'The "valmax" property must be castable to type float!',
             allow_None=True)
@@ -206,7 +232,7 @@ class Parameter(object):
 
     @value.setter
     def value(self, v):
-        v = float_cast(
+        v = _scalar_float_cast(
             v,
             'The "value" property must be castable to type float!')
         if self._isfixed:
@@ -496,13 +522,13 @@ class Parameter(object):
                     'argument!')
             valmax = self._valmax
 
-        initial = float_cast(
+        initial = _scalar_float_cast(
             initial,
             'The "initial" property must be castable to type float!')
-        valmin = float_cast(
+        valmin = _scalar_float_cast(
             valmin,
             'The "valmin" property must be castable to type float!')
-        valmax = float_cast(
+        valmax = _scalar_float_cast(
             valmax,
             'The "valmax" property must be castable to type float!')
 
@@ -911,7 +937,7 @@ class ParameterSet(
                     raise ValueError(
                         f'The parameter "{param.name}" is already a fixed '
                         'parameter!')
-                float_cast(
+                _scalar_float_cast(
                     fix_params[param.name],
                     f'The value for the parameter "{param.name}" must be '
                     'castable to type float!',
